@@ -1091,6 +1091,391 @@ def gen_keyed_history(r, nops, kind=None, kt=None, strs=STRS_SAFE, preamble_only
 
 
 # ------------------------------------------------------------------------------------------------
+# histories over SEVERAL live containers (aliasing / independence)
+
+import copy as _copy
+
+ALIAS_STRS = ["", "a", "b", "ab", "x y", "c"]
+ALIAS_ELEM_TYPES = [INT, INT, STR, TUP(INT, STR), TUP(INT, INT), LIST(INT)]
+
+
+class AliasHistory:
+    """Three registers c0 c1 c2.  kinds[r] in list | dict | set; every list register holds elements of type et.
+    ops (the first len(kinds) ops initialise the registers and are never shrunk away):
+      ("new", r, values) | ("dnew", r) | ("snew", r)
+      ("on", r, lop)            lop = ("push", v) | ("prepend", v) | ("pop",) | ("get", i) | ("set", i, v) | ("len",)
+                                      | ("last",) | ("contains", v)          (last / contains: Sylt only)
+      ("kon", r, kop)           kop = ("update", k, v) | ("add", k) | ("remove", k) | ("len",) | ("get", k) | ("has", k)
+      ("filter", dst, src, pred, k)   pred = all | none | ltk | eqk | nek
+      ("map", dst, src, "id") | ("map", dst, src, "addk", k)
+      ("dictfrom", dst, src) | ("setfrom", dst, src)
+      ("innerpush", r, i, v)    et = [int]: push v onto the i-th element (a list) -- sharing of the ELEMENT is intended
+    After every op: the observation, then every register (lists printed, dicts / sets by len).
+    The plain model is Python itself: filter / map / from_list build NEW containers, elements are references."""
+
+    def __init__(self, et, kinds, ops):
+        self.et, self.kinds, self.ops = et, list(kinds), list(ops)
+        self.ninit = len(kinds)
+        self.kt = et[1][0] if (et[0] == "tuple" and len(et[1]) == 2) else None
+        self.vt = et[1][1] if self.kt else None
+        self.in_model = et[0] != "list" and not any(o[0] == "innerpush" for o in ops)
+
+    def prepare(self):
+        return self
+
+    def preamble_only(self):
+        return not any(o[0] == "on" and o[2][0] in ("last", "contains") for o in self.ops) and \
+            not any(o[0] == "kon" and self.kinds[o[1]] == "dict" and o[2][0] == "has" for o in self.ops)
+
+    # ---- plain model
+    def expected(self):
+        et = self.et
+        regs = [[] if k == "list" else ({} if k == "dict" else set()) for k in self.kinds]
+        M = MAYBE(et)
+        out = []
+        for op in self.ops:
+            n = op[0]
+            obs = "nil"
+            if n == "new":
+                regs[op[1]] = [_copy.deepcopy(e) for e in op[2]]     # every literal element is a fresh value
+            elif n == "dnew":
+                regs[op[1]] = {}
+            elif n == "snew":
+                regs[op[1]] = set()
+            elif n == "on":
+                l, o = regs[op[1]], op[2]
+                k = o[0]
+                if k == "push":
+                    l.append(_copy.deepcopy(o[1]))
+                elif k == "prepend":
+                    l.insert(0, _copy.deepcopy(o[1]))
+                elif k == "pop":
+                    obs = show(("Just", l.pop()) if l else ("None",), M)
+                elif k == "get":
+                    obs = show(("Just", l[o[1]]) if 0 <= o[1] < len(l) else ("None",), M)
+                elif k == "set":
+                    if 0 <= o[1] < len(l):
+                        l[o[1]] = _copy.deepcopy(o[2])
+                elif k == "len":
+                    obs = str(len(l))
+                elif k == "last":
+                    obs = show(("Just", l[-1]) if l else ("None",), M)
+                elif k == "contains":
+                    obs = show(o[1] in l, BOOL)
+            elif n == "kon":
+                c, o = regs[op[1]], op[2]
+                k = o[0]
+                if k == "update":
+                    c[o[1]] = o[2]
+                    obs = str(len(c))
+                elif k == "add":
+                    c.add(o[1])
+                    obs = str(len(c))
+                elif k == "remove":
+                    if isinstance(c, dict):
+                        c.pop(o[1], None)
+                    else:
+                        c.discard(o[1])
+                    obs = str(len(c))
+                elif k == "len":
+                    obs = str(len(c))
+                elif k == "get":
+                    obs = show(("Just", c[o[1]]) if o[1] in c else ("None",), MAYBE(self.vt))
+                elif k == "has":
+                    obs = show(o[1] in c, BOOL)
+            elif n == "filter":
+                p = op[3]
+                src = regs[op[2]]
+                if p == "all":
+                    regs[op[1]] = [e for e in src]
+                elif p == "none":
+                    regs[op[1]] = []
+                else:
+                    regs[op[1]] = [e for e in src if pred(p, e, op[4], et)]
+            elif n == "map":
+                src = regs[op[2]]
+                regs[op[1]] = [e for e in src] if op[3] == "id" else [p_arith("add", e, op[4], et)[0] for e in src]
+            elif n == "dictfrom":
+                regs[op[1]] = {k: v for k, v in regs[op[2]]}
+            elif n == "setfrom":
+                regs[op[1]] = set(regs[op[2]])
+            elif n == "innerpush":
+                l = regs[op[1]]
+                if 0 <= op[2] < len(l):
+                    l[op[2]].append(op[3])
+            out.append(obs)
+            for kind, c in zip(self.kinds, regs):
+                out.append(show(c, LIST(et)) if kind == "list" else str(len(c)))
+        return out
+
+    # ---- the model's case language
+    def _lop_tok(self, o):
+        et = self.et
+        k = o[0]
+        if k in ("push", "prepend", "contains"):
+            return "%s %s" % (k, tok(o[1], et))
+        if k in ("pop", "len", "last"):
+            return k
+        if k == "get":
+            return "get I%d" % o[1]
+        return "set I%d %s" % (o[1], tok(o[2], et))
+
+    def _kop_tok(self, o):
+        k = o[0]
+        if k == "update":
+            return "update %s %s" % (tok(o[1], self.kt), tok(o[2], self.vt))
+        if k == "len":
+            return "len"
+        return "%s %s" % (k, tok(o[1], self._keyt(o)))
+
+    def _keyt(self, o):
+        return self._cur_keyt
+
+    def case_line(self):
+        parts = []
+        for op in self.ops:
+            n = op[0]
+            if n == "new":
+                parts.append("new %d %s" % (op[1], tok(list(op[2]), LIST(self.et))))
+            elif n in ("dnew", "snew"):
+                parts.append("%s %d" % (n, op[1]))
+            elif n == "on":
+                parts.append("on %d %s" % (op[1], self._lop_tok(op[2])))
+            elif n == "kon":
+                self._cur_keyt = self.kt if self.kinds[op[1]] == "dict" else self.et
+                parts.append("kon %d %s" % (op[1], self._kop_tok(op[2])))
+            elif n == "filter":
+                parts.append("filter %d %d %s %s" % (op[1], op[2], op[3], tok(op[4], self.et)))
+            elif n == "map":
+                parts.append("map %d %d id" % (op[1], op[2]) if op[3] == "id" else "map %d %d addk %s" % (op[1], op[2], tok(op[4], self.et)))
+            elif n in ("dictfrom", "setfrom"):
+                parts.append("%s %d %d" % (n, op[1], op[2]))
+            else:
+                raise ValueError("not in the model: " + n)
+        return "MULTI %d %d %s" % (len(self.kinds), len(self.ops), " ".join(parts))
+
+    # ---- Lua through the real preamble
+    def lua_chunk(self):
+        et = self.et
+        regs = ["c%d" % i for i in range(len(self.kinds))]
+        shows = "; ".join("print(tostring(%s))" % r if k == "list" else "print(xx_len(%s))" % r for r, k in zip(regs, self.kinds))
+        L = ["local %s = %s" % (", ".join(regs), ", ".join("__LIST{  }" if k == "list" else ("dict_new()" if k == "dict" else "set_new()")
+                                                         for k in self.kinds)),
+             "local alive = true",
+             "local function step(f) if alive then local ok, r = pcall(f); if ok then print(tostring(r)); %s "
+             "else print(\"ERR\"); alive = false end end end" % shows]
+        for op in self.ops:
+            n = op[0]
+            if n == "new":
+                e = "c%d = %s" % (op[1], lua(list(op[2]), LIST(et)))
+            elif n == "dnew":
+                e = "c%d = dict_new()" % op[1]
+            elif n == "snew":
+                e = "c%d = set_new()" % op[1]
+            elif n == "on":
+                c, o = "c%d" % op[1], op[2]
+                k = o[0]
+                if k == "push":
+                    e = "list_push(%s, %s)" % (c, lua(o[1], et))
+                elif k == "prepend":
+                    e = "list_prepend(%s, %s)" % (c, lua(o[1], et))
+                elif k == "pop":
+                    e = "return list_pop(%s)" % c
+                elif k == "get":
+                    e = "return list_get(%s, %d)" % (c, o[1])
+                elif k == "set":
+                    e = "list_set(%s, %d, %s)" % (c, o[1], lua(o[2], et))
+                elif k == "len":
+                    e = "return xx_len(%s)" % c
+                else:
+                    raise ValueError("not a preamble function: " + k)
+            elif n == "kon":
+                c, o = "c%d" % op[1], op[2]
+                k = o[0]
+                if self.kinds[op[1]] == "dict":
+                    if k == "update":
+                        e = "dict_update(%s, %s, %s); return xx_len(%s)" % (c, lua(o[1], self.kt), lua(o[2], self.vt), c)
+                    elif k == "remove":
+                        e = "dict_remove(%s, %s); return xx_len(%s)" % (c, lua(o[1], self.kt), c)
+                    elif k == "get":
+                        e = "return dict_get(%s, %s)" % (c, lua(o[1], self.kt))
+                    elif k == "len":
+                        e = "return xx_len(%s)" % c
+                    else:
+                        raise ValueError("not a preamble function: " + k)
+                else:
+                    if k == "add":
+                        e = "set_add(%s, %s); return xx_len(%s)" % (c, lua(o[1], et), c)
+                    elif k == "remove":
+                        e = "set_remove(%s, %s); return xx_len(%s)" % (c, lua(o[1], et), c)
+                    elif k == "has":
+                        e = "return set_contains(%s, %s)" % (c, lua(o[1], et))
+                    else:
+                        e = "return xx_len(%s)" % c
+            elif n == "filter":
+                body = {"all": "true", "none": "false"}.get(op[3]) or lua_pred(op[3], lua(op[4], et))
+                e = "c%d = list_filter(c%d, function(x) return %s end)" % (op[1], op[2], body)
+            elif n == "map":
+                body = "x" if op[3] == "id" else "__ADD(x, %s)" % lua(op[4], et)
+                e = "c%d = list_map(c%d, function(x) return %s end)" % (op[1], op[2], body)
+            elif n == "dictfrom":
+                e = "c%d = dict_from_list(c%d)" % (op[1], op[2])
+            elif n == "setfrom":
+                e = "c%d = set_from_list(c%d)" % (op[1], op[2])
+            elif n == "innerpush":
+                e = "local m = list_get(c%d, %d); if m[1] == \"Just\" then list_push(m[2], %s) end" % (op[1], op[2], lua(op[3], INT))
+            L.append("step(function() %s end)" % e)
+        return "\n".join(L) + "\n"
+
+    # ---- Sylt
+    def sylt_lines(self):
+        et = self.et
+        L = []
+        for i, k in enumerate(self.kinds):
+            if k == "list":
+                L.append("    c%d: [%s] = []" % (i, sy_type(et)))
+            elif k == "dict":
+                L.append("    c%d: dict.Dict(%s, %s) = dict.new()" % (i, sy_type(self.kt), sy_type(self.vt)))
+            else:
+                L.append("    c%d: set.Set(%s) = set.new()" % (i, sy_type(et)))
+        shows = ["    print(c%d)" % i if k == "list" else "    print(%s.len(c%d))" % (k, i) for i, k in enumerate(self.kinds)]
+        for j, op in enumerate(self.ops):
+            n = op[0]
+            obs = None
+            if n == "new":
+                L.append("    c%d = %s" % (op[1], sy(list(op[2]), LIST(et))))
+            elif n == "dnew":
+                L.append("    c%d = dict.new()" % op[1])
+            elif n == "snew":
+                L.append("    c%d = set.new()" % op[1])
+            elif n == "on":
+                c, o = "c%d" % op[1], op[2]
+                k = o[0]
+                if k in ("push", "prepend"):
+                    L.append("    list.%s(%s, %s)" % (k, c, sy(o[1], et)))
+                elif k == "set":
+                    L.append("    list.set(%s, %s, %s)" % (c, sy(o[1], INT), sy(o[2], et)))
+                elif k == "get":
+                    obs = "list.get(%s, %s)" % (c, sy(o[1], INT))
+                elif k == "contains":
+                    obs = "list.contains(%s, %s)" % (c, sy(o[1], et))
+                else:
+                    obs = "list.%s(%s)" % (k, c)
+            elif n == "kon":
+                c, o = "c%d" % op[1], op[2]
+                k = o[0]
+                m = self.kinds[op[1]]
+                if k == "update":
+                    L.append("    dict.update(%s, %s, %s)" % (c, sy(o[1], self.kt), sy(o[2], self.vt)))
+                    obs = "dict.len(%s)" % c
+                elif k == "add":
+                    L.append("    set.add(%s, %s)" % (c, sy(o[1], et)))
+                    obs = "set.len(%s)" % c
+                elif k == "remove":
+                    L.append("    %s.remove(%s, %s)" % (m, c, sy(o[1], self.kt if m == "dict" else et)))
+                    obs = "%s.len(%s)" % (m, c)
+                elif k == "len":
+                    obs = "%s.len(%s)" % (m, c)
+                elif k == "get":
+                    obs = "dict.get(%s, %s)" % (c, sy(o[1], self.kt))
+                elif k == "has":
+                    obs = ("dict.contains_key(%s, %s)" % (c, sy(o[1], self.kt))) if m == "dict" else ("set.contains(%s, %s)" % (c, sy(o[1], et)))
+            elif n == "filter":
+                body = {"all": "true", "none": "false"}.get(op[3]) or sy_pred(op[3], sy(op[4], et))
+                L.append("    c%d = list.filter(c%d, pu x -> %s end)" % (op[1], op[2], body))
+            elif n == "map":
+                body = "x" if op[3] == "id" else "x + %s" % sy(op[4], et)
+                L.append("    c%d = list.map(c%d, pu x -> %s end)" % (op[1], op[2], body))
+            elif n == "dictfrom":
+                L.append("    c%d = dict.from_list(c%d)" % (op[1], op[2]))
+            elif n == "setfrom":
+                L.append("    c%d = set.from_list(c%d)" % (op[1], op[2]))
+            elif n == "innerpush":
+                L.append("    inner%d: [int] = maybe.orDefault(list.get(c%d, %s), [])" % (j, op[1], sy(op[2], INT)))
+                L.append("    list.push(inner%d, %s)" % (j, sy(op[3], INT)))
+            L.append("    print(%s)" % (obs or "nil"))
+            L.extend(shows)
+        return L
+
+
+def gen_alias_history(r, nops, et=None, preamble_only=False):
+    et = et or r.choice(ALIAS_ELEM_TYPES)
+    nested = et[0] == "list"
+    strs = ALIAS_STRS
+    pool = [gen_value(r, et, strs, small=True) for _ in range(5)]
+    g = lambda: r.choice(pool) if r.random() < 0.8 else gen_value(r, et, strs, small=True)
+    third = ["list", "list"]
+    if not nested:
+        third.append("set")
+        if et[0] == "tuple" and len(et[1]) == 2:
+            third += ["dict", "dict"]
+    kinds = ["list", "list", r.choice(third)]
+    ops = []
+    # the keyed register first (see the class comment), then the lists
+    if kinds[2] != "list":
+        ops.append(("dnew" if kinds[2] == "dict" else "snew", 2))
+    else:
+        ops.append(("new", 2, []))
+    ops.append(("new", 0, [g() for _ in range(r.choice([0, 1, 2, 3, 4]))]))
+    ops.append(("new", 1, [g() for _ in range(r.choice([0, 0, 1, 2]))]))
+    lists = [i for i, k in enumerate(kinds) if k == "list"]
+
+    def mutation(reg):
+        k = r.choice(["push", "push", "prepend", "pop", "set", "set"])
+        if k in ("push", "prepend"):
+            return ("on", reg, (k, g()))
+        if k == "pop":
+            return ("on", reg, ("pop",))
+        return ("on", reg, ("set", r.choice([0, 0, 1, 2, 5, -1]), g()))
+
+    def observation(reg):
+        ks = ["get", "len"] + ([] if preamble_only else ["last", "contains"])
+        k = r.choice(ks)
+        if k == "get":
+            return ("on", reg, ("get", r.choice([0, 1, 2, 5])))
+        if k == "contains":
+            return ("on", reg, ("contains", g()))
+        return ("on", reg, (k,))
+
+    while len(ops) < nops + 3:
+        x = r.random()
+        if x < 0.30:
+            dst, src = r.sample(lists, 2) if len(lists) > 1 else (lists[0], lists[0])
+            y = r.random()
+            if y < 0.55:
+                ps = ["all", "all", "all", "none", "eqk", "nek"] + (["ltk"] if is_ord(et) else [])
+                ops.append(("filter", dst, src, r.choice(ps), g()))
+            elif y < 0.8 or not is_add(et) or nested:
+                ops.append(("map", dst, src, "id"))
+            else:
+                neutral = {"int": 0, "str": ""}.get(et[0])
+                k = neutral if (neutral is not None and r.random() < 0.5) else g()
+                ops.append(("map", dst, src, "addk", k))
+            # the point of the exercise: now mutate the source and the result, and look at both
+            for _ in range(r.randint(1, 3)):
+                ops.append(mutation(r.choice([dst, src])))
+        elif x < 0.40 and kinds[2] != "list":
+            ops.append(("dictfrom" if kinds[2] == "dict" else "setfrom", 2, r.choice([0, 1])))
+            ops.append(mutation(r.choice([0, 1])))
+        elif x < 0.55 and kinds[2] != "list":
+            if kinds[2] == "dict":
+                kk = r.choice(pool)[0]
+                kop = r.choice([("update", kk, r.choice(pool)[1]), ("remove", kk), ("get", kk), ("len",)] +
+                               ([] if preamble_only else [("has", kk)]))
+            else:
+                kk = r.choice(pool)
+                kop = r.choice([("add", kk), ("remove", kk), ("has", kk), ("len",)])
+            ops.append(("kon", 2, kop))
+        elif x < 0.62 and nested:
+            ops.append(("innerpush", r.choice(lists), r.choice([0, 1, 2]), r.choice([0, 1, 7])))
+        elif x < 0.85:
+            ops.append(mutation(r.choice(lists)))
+        else:
+            ops.append(observation(r.choice(lists)))
+    return AliasHistory(et, kinds, ops)
+
+
+# ------------------------------------------------------------------------------------------------
 # Sylt programs
 
 def sylt_program(body_lines, use_decls=False):
